@@ -52,27 +52,7 @@ pub fn completion_bytes(seed: u32, n: usize) -> Vec<u8> {
     if seed % 4 != 3 || seed >= 0xffff_fff0 {
         return fill(seed, n);
     }
-    let noise = fill(seed | 1, n + 64);
-    let mut out = Vec::with_capacity(n + 8);
-    let mut i = 0usize;
-    const KINDS: [u8; 14] = [0x01, 0x02, 0x03, 0x03, 0x03, 0x04, 0x05, 0x20, 0x21, 0x22, 0x23, 0x24, 0x25, 0x30];
-    while out.len() < n {
-        let kind = KINDS[noise[i % noise.len()] as usize % KINDS.len()];
-        let len = match noise[(i + 1) % noise.len()] % 4 {
-            0 => 4usize,
-            1 => 0,
-            2 => (noise[(i + 2) % noise.len()] % 9) as usize,
-            _ => 4,
-        };
-        out.push(kind);
-        out.extend_from_slice(&(len as u16).to_be_bytes());
-        for k in 0..len {
-            out.push(noise[(i + 3 + k) % noise.len()]);
-        }
-        i += 3 + len;
-    }
-    out.truncate(n);
-    out
+    crate::gen::tlv_run(seed, n)
 }
 
 /// Check one input against the statement; `deep` also runs the completion metamorphic steps.
